@@ -154,6 +154,55 @@ def replay_available_state(c):
     return bool(bad), f'contract {contract.str_info()} after {len(c["plays"])} plays: ' + '; '.join(bad[:3])
 
 
+def replay_clone(c):
+    """board A gets its opening lead, B = copy.deepcopy(A), the trick is completed on B: A must be unchanged, B must be what a
+    fresh board given the same four plays is; then A takes its own second card"""
+    import copy
+    from bridge_env import Hands, Player, PlayingPhaseWithHands
+    contract = mk_contract(c['contract'])
+    deal = filled_deal(c['deal'])
+    mk = lambda: PlayingPhaseWithHands(contract, Hands(*[{card_of(i) for i in deal[p]} for p in range(1, 5)]))
+
+    def view(o):
+        return dict(leader=o.leader, turn=o.active_player, trick=o.trick_num, taken=dict(o.taken_tricks),
+                    history=[(h.leader, tuple(h.cards)) for h in o.playing_history.history], table=list(o._trick_cards),
+                    hands={p: set(o.hands[p]) for p in Player}, used=set(o.used_cards))
+    A, R = mk(), mk()
+    plays = [(card_of(i), Player(s)) for i, s in c['plays']]
+    bad = []
+    try:
+        A.play_card_by_player(*plays[0])
+        R.play_card_by_player(*plays[0])
+        B = copy.deepcopy(A)
+    except Exception as e:
+        return True, f'lead and deep copy raised {e!r}'
+    before = view(A)
+    for k in (1, 2, 3):
+        try:
+            B.play_card_by_player(*plays[k])
+            R.play_card_by_player(*plays[k])
+        except Exception as e:
+            bad.append(f'the copy refused card {k + 1} of the trick ({plays[k][0]} by {plays[k][1]}): {e!r}')
+            break
+        if view(A) != before:
+            diff = [key for key in before if view(A)[key] != before[key]]
+            bad.append(f'after card {k + 1} on the copy the original board changed: {diff}')
+            break
+    if not bad and view(B) != view(R):
+        bad.append('the copy differs from a fresh board given the same four plays: ' + str([key for key in view(R) if view(B)[key] != view(R)[key]]))
+    if not bad:
+        # the original goes on with its own trick (the same three cards): it must behave like the reference did
+        for k in (1, 2, 3):
+            try:
+                A.play_card_by_player(*plays[k])
+            except Exception as e:
+                bad.append(f'the original refused its own card {k + 1} after the copy had finished the trick: {e!r}')
+                break
+        if not bad and view(A) != view(R):
+            bad.append('the original, played on after the copy, differs from the reference board')
+    return bool(bad), f'contract {contract.str_info()}: ' + '; '.join(bad[:3])
+
+
 def replay_observer(c):
     """full-information game and a single-seat observer driven through the same plays (dummy disclosed to the
     observer after the opening lead unless it sits in dummy's seat), then the offered play"""
@@ -295,6 +344,8 @@ def replay(c):
     import copy
     if c.get('kind') == 'two_boards':
         return replay_two_boards(c)
+    if c.get('kind') == 'clone':
+        return replay_clone(c)
     if c.get('kind') == 'observer':
         return replay_observer(c)
     if c.get('kind') == 'replicas':
